@@ -56,7 +56,9 @@ NULL_ALIASES = {"is_null": ["is_null", "isnull"], "is_not_null": ["is_not_null",
 CANON = {al: op for d in (CMP_ALIASES, SET_ALIASES, NULL_ALIASES) for op, als in d.items() for al in als}
 
 MALFORMED = ["unknown_op:gte", "unknown_op:startswith", "unknown_op:like", "unknown_op:", "unknown_op:=>",
-             "none_value", "arity:1", "arity:3", "arity:0", "nonstring_op:int", "nonstring_op:none"]
+             "none_value", "arity:1", "arity:3", "arity:0", "nonstring_op:int", "nonstring_op:none",
+             # a `between` whose operand is not a (lo, hi) pair
+             "between_operand:three", "between_operand:one", "between_operand:scalar", "between_operand:empty"]
 
 
 def _isnan(v: Any) -> bool:
@@ -148,6 +150,8 @@ def build_condition(tname: str, c: Tuple) -> Any:
         m = c[1]
         if m.startswith("unknown_op:"):
             return (m.split(":", 1)[1], v)
+        if m.startswith("between_operand:"):
+            return ("between", {"three": (v, v, v), "one": (v,), "scalar": v, "empty": ()}[m.split(":", 1)[1]])
         return {"none_value": None, "arity:1": ("==",), "arity:3": ("==", v, v), "arity:0": (),
                 "nonstring_op:int": (1, v), "nonstring_op:none": (None, v)}[m]
     raise ValueError(c)
